@@ -66,26 +66,29 @@ theorem RPathOK.extend {n : Nat} {adj : Nat → List Nat} {rp : List Nat} (h : R
 
 /-! ### the cycle closed by a back edge -/
 
+theorem split_at_first {rp : List Nat} {nb : Nat} (hmem : nb ∈ rp) :
+    ∃ rest, rp = rp.takeWhile (· != nb) ++ nb :: rest := by
+  induction rp with
+  | nil => cases hmem
+  | cons x t ih =>
+    by_cases hx : x = nb
+    · subst hx; exact ⟨t, by simp [List.takeWhile_cons]⟩
+    · have hxb : (x != nb) = true := by simpa using hx
+      have : nb ∈ t := by
+        rcases List.mem_cons.mp hmem with h | h
+        · exact absurd h.symm hx
+        · exact h
+      obtain ⟨rest, hr⟩ := ih this
+      refine ⟨rest, ?_⟩
+      rw [List.takeWhile_cons, hxb]
+      simp only [↓reduceIte, List.cons_append, List.cons.injEq, true_and]
+      exact hr
+
 theorem cycleOf_suffix {rp : List Nat} {nb : Nat} (hmem : nb ∈ rp) :
     ∃ pre, rp.reverse = pre ++ cycleOf rp nb := by
-  have hsplit := List.takeWhile_append_dropWhile (p := (· != nb)) (l := rp)
-  have hd : ∃ rest, rp.dropWhile (· != nb) = nb :: rest := by
-    cases hdw : rp.dropWhile (· != nb) with
-    | nil =>
-      exfalso
-      have : ∀ x ∈ rp, (x != nb) = true := by
-        intro x hx
-        have h2 : rp.takeWhile (· != nb) = rp := by rw [← hsplit, hdw]; simp
-        rw [← h2] at hx
-        exact List.mem_takeWhile_imp hx
-      simpa using this nb hmem
-    | cons y rest =>
-      have := List.head_dropWhile_not (p := (· != nb)) (l := rp) (by rw [hdw]; simp)
-      simp only [hdw, List.head_cons, bne_iff_ne, ne_eq, Bool.not_eq_true, bne_eq_false_iff_eq] at this
-      exact ⟨rest, by rw [this]⟩
-  obtain ⟨rest, hrest⟩ := hd
+  obtain ⟨rest, hrest⟩ := split_at_first hmem
   refine ⟨rest.reverse, ?_⟩
-  conv => lhs; rw [← hsplit, hrest]
+  conv => lhs; rw [hrest]
   simp [cycleOf]
 
 theorem cycleOf_getLast {rp : List Nat} {nb : Nat} (hne : rp ≠ []) (hmem : nb ∈ rp) :
@@ -96,8 +99,9 @@ theorem cycleOf_getLast {rp : List Nat} {nb : Nat} (hne : rp ≠ []) (hmem : nb 
   · subst hx
     simp [List.takeWhile_cons]
   · have : (x != nb) = true := by simpa using hx
-    simp [List.takeWhile_cons, this, List.getLast?_cons_cons]
-    rw [List.getLast?_append]
+    rw [List.takeWhile_cons, this]
+    simp only [↓reduceIte, List.reverse_cons, List.headD_cons]
+    rw [← List.cons_append, List.getLast?_append]
     simp
 
 /-- ★ the list recorded when the traversal meets a node of its own path is a simple cycle of the graph -/
@@ -107,7 +111,7 @@ theorem cycleOf_simple {n : Nat} {adj : Nat → List Nat} {rp : List Nat} (h : R
     IsSimpleCycle n adj directed (cycleOf rp nb) := by
   obtain ⟨pre, hpre⟩ := cycleOf_suffix hmem
   have hnd : (cycleOf rp nb).Nodup := by
-    have : (rp.reverse).Nodup := List.nodup_reverse.mpr h.nodup
+    have : (rp.reverse).Nodup := (List.Perm.nodup_iff (List.reverse_perm rp)).mpr h.nodup
     rw [hpre] at this
     exact (List.nodup_append.mp this).2.1
   have hlt : ∀ v ∈ cycleOf rp nb, v < n := by
@@ -138,7 +142,7 @@ theorem cycleOf_simple {n : Nat} {adj : Nat → List Nat} {rp : List Nat} (h : R
       have hlen : (cycleOf rp nb).length = (rp.takeWhile (· != nb)).length + 1 := by simp [cycleOf]
       obtain ⟨x, t, rfl⟩ := List.exists_cons_of_ne_nil h.ne
       by_cases hx : x = nb
-      · left; subst hx; simp [cycleOf, List.takeWhile_cons]
+      · left; subst hx; simp [cycleOf]
       · right
         have hxb : (x != nb) = true := by simpa using hx
         cases t with
@@ -149,6 +153,166 @@ theorem cycleOf_simple {n : Nat} {adj : Nat → List Nat} {rp : List Nat} (h : R
             · simp at hb
             · simpa using hb
           have hyb : (y != nb) = true := by simpa using (Ne.symm hy)
-          simp [hlen, List.takeWhile_cons, hxb, hyb]
+          simp [hlen, hxb, hyb]
+
+end SkNet.Cycles
+
+namespace SkNet.Cycles
+open SkNet SkNet.Connectivity
+
+/-! ### the traversal -/
+
+theorem cyclesNeighbors_inv {n : Nat} {adj : Nat → List Nat} (hwf : ∀ u, u < n → ∀ v ∈ adj u, v < n)
+    (directed : Bool) {rp : List Nat} (hrp : RPathOK n adj rp)
+    (nbs : List Nat) (hnbs : ∀ v ∈ nbs, v ∈ adj (rp.headD 0))
+    (stack cycles : List (List Nat))
+    (hs : ∀ p ∈ stack, RPathOK n adj p) (hc : ∀ c ∈ cycles, IsSimpleCycle n adj directed c) :
+    (∀ p ∈ (cyclesNeighbors directed rp nbs (stack, cycles)).1, RPathOK n adj p) ∧
+    (∀ c ∈ (cyclesNeighbors directed rp nbs (stack, cycles)).2, IsSimpleCycle n adj directed c) := by
+  induction nbs generalizing stack cycles with
+  | nil => exact ⟨hs, hc⟩
+  | cons nb rest ih =>
+    have hrest : ∀ v ∈ rest, v ∈ adj (rp.headD 0) := fun v hv => hnbs v (List.mem_cons_of_mem _ hv)
+    have hedge : nb ∈ adj (rp.headD 0) := hnbs nb List.mem_cons_self
+    have hhead : rp.headD 0 < n := by
+      obtain ⟨x, t, rfl⟩ := List.exists_cons_of_ne_nil hrp.ne
+      exact hrp.lt x List.mem_cons_self
+    unfold cyclesNeighbors
+    by_cases hback : (!directed && decide (rp.length > 1) && nb == rp.getD 1 0) = true
+    · simp only [hback, ↓reduceIte]
+      exact ih hrest stack cycles hs hc
+    · simp only [hback, Bool.false_eq_true, ↓reduceIte]
+      by_cases hin : rp.contains nb = true
+      · simp only [hin, ↓reduceIte]
+        apply ih hrest stack _ hs
+        intro c hcm
+        rcases List.mem_append.mp hcm with h | h
+        · exact hc c h
+        · simp only [List.mem_singleton] at h
+          subst h
+          exact cycleOf_simple hrp (by simpa using hin) hedge directed (by simpa using hback)
+      · simp only [hin, Bool.false_eq_true, ↓reduceIte]
+        apply ih hrest _ cycles _ hc
+        intro p hp
+        rcases List.mem_cons.mp hp with h | h
+        · subst h
+          exact hrp.extend (hwf _ hhead nb hedge) hedge (by simpa using hin)
+        · exact hs p h
+
+theorem cyclesLoop_inv {n : Nat} {adj : Nat → List Nat} (hwf : ∀ u, u < n → ∀ v ∈ adj u, v < n)
+    (directed : Bool) (fuel : Nat) (stack cycles out : List (List Nat))
+    (hs : ∀ p ∈ stack, RPathOK n adj p) (hc : ∀ c ∈ cycles, IsSimpleCycle n adj directed c)
+    (h : cyclesLoop adj directed fuel stack cycles = some out) :
+    ∀ c ∈ out, IsSimpleCycle n adj directed c := by
+  induction fuel generalizing stack cycles with
+  | zero => simp [cyclesLoop] at h
+  | succ fuel ih =>
+    unfold cyclesLoop at h
+    match stack, hs with
+    | [], _ => simp only at h; cases h; exact hc
+    | rp :: rest, hs =>
+      simp only at h
+      have hrp := hs rp List.mem_cons_self
+      have hrest : ∀ p ∈ rest, RPathOK n adj p := fun p hp => hs p (List.mem_cons_of_mem _ hp)
+      have := cyclesNeighbors_inv hwf directed hrp (adj (rp.headD 0)) (fun v hv => hv) rest cycles hrest hc
+      exact ih _ _ this.1 this.2 h
+
+theorem cyclesFromStarts_inv {n : Nat} {adj : Nat → List Nat} (hwf : ∀ u, u < n → ∀ v ∈ adj u, v < n)
+    (directed : Bool) (fuel : Nat) (starts : List Nat) (hst : ∀ s ∈ starts, s < n)
+    (cycles out : List (List Nat)) (hc : ∀ c ∈ cycles, IsSimpleCycle n adj directed c)
+    (h : cyclesFromStarts adj directed fuel starts cycles = some out) :
+    ∀ c ∈ out, IsSimpleCycle n adj directed c := by
+  induction starts generalizing cycles with
+  | nil => simp only [cyclesFromStarts] at h; cases h; exact hc
+  | cons s rest ih =>
+    unfold cyclesFromStarts at h
+    split at h
+    · cases h
+    · rename_i cycles' hl
+      have hs : s < n := hst s List.mem_cons_self
+      have hc' := cyclesLoop_inv hwf directed fuel [[s]] cycles cycles'
+        (by intro p hp; simp only [List.mem_singleton] at hp; subst hp; exact RPathOK.single adj hs) hc hl
+      exact ih (fun x hx => hst x (List.mem_cons_of_mem _ hx)) cycles' hc' h
+
+/-! ### rotation keeps a simple cycle simple -/
+
+theorem linkB_append_left (adj : Nat → List Nat) (a b c : List Nat) (hb : b ≠ []) :
+    linkB adj (a ++ b) c = linkB adj b c := by
+  simp only [linkB, List.getLast?_append]
+  cases hbl : b.getLast? with
+  | none => exact absurd (List.getLast?_eq_none_iff.mp hbl) hb
+  | some x => simp
+
+theorem linkB_append_right (adj : Nat → List Nat) (a b c : List Nat) (ha : a ≠ []) :
+    linkB adj c (a ++ b) = linkB adj c a := by
+  obtain ⟨x, t, rfl⟩ := List.exists_cons_of_ne_nil ha
+  simp [linkB]
+
+theorem isClosedChain_iff (adj : Nat → List Nat) (c : List Nat) :
+    IsClosedChain adj c ↔ c ≠ [] ∧ isChain adj c = true ∧ linkB adj c c = true := by
+  cases c with
+  | nil => simp [IsClosedChain]
+  | cons h t =>
+    simp only [IsClosedChain, ne_eq, reduceCtorEq, not_false_eq_true, true_and]
+    rw [isChain_append]
+    have : linkB adj (h :: t) [h] = linkB adj (h :: t) (h :: t) := by simp [linkB]
+    simp [isChain, this]
+
+theorem isClosedChain_rotate (adj : Nat → List Nat) (a b : List Nat) (h : IsClosedChain adj (a ++ b)) :
+    IsClosedChain adj (b ++ a) := by
+  by_cases ha : a = []
+  · subst ha; simpa using h
+  by_cases hb : b = []
+  · subst hb; simpa using h
+  rw [isClosedChain_iff] at h ⊢
+  obtain ⟨_, hch, hl⟩ := h
+  rw [isChain_append] at hch
+  simp only [Bool.and_eq_true] at hch
+  rw [linkB_append_left adj a b _ hb, linkB_append_right adj a b _ ha] at hl
+  refine ⟨by simp [ha], ?_, ?_⟩
+  · rw [isChain_append]
+    simp only [Bool.and_eq_true]
+    exact ⟨⟨hch.1.2, hch.1.1⟩, hl⟩
+  · rw [linkB_append_left adj b a _ ha, linkB_append_right adj b a _ hb]
+    exact hch.2
+
+theorem isSimpleCycle_rotate {n : Nat} {adj : Nat → List Nat} {directed : Bool} {c : List Nat}
+    (h : IsSimpleCycle n adj directed c) (k : Nat) : IsSimpleCycle n adj directed (c.drop k ++ c.take k) := by
+  obtain ⟨hnd, hlt, hcl, hlen⟩ := h
+  have hperm : (c.drop k ++ c.take k).Perm c := by
+    have := List.perm_append_comm (l₁ := c.drop k) (l₂ := c.take k)
+    rw [List.take_append_drop] at this
+    exact this
+  refine ⟨hperm.nodup_iff.mpr hnd, fun v hv => hlt v (hperm.mem_iff.mp hv), ?_, ?_⟩
+  · apply isClosedChain_rotate
+    rw [List.take_append_drop]; exact hcl
+  · rw [hperm.length_eq]; exact hlen
+
+theorem isSimpleCycle_rollMin {n : Nat} {adj : Nat → List Nat} {directed : Bool} {c : List Nat}
+    (h : IsSimpleCycle n adj directed c) : IsSimpleCycle n adj directed (rollMin c) :=
+  isSimpleCycle_rotate h _
+
+/-! ### duplicate removal -/
+
+theorem dedupCycles_mem (directed : Bool) (cycles visited unique : List (List Nat)) :
+    ∀ c ∈ dedupCycles directed cycles (visited, unique), c ∈ unique ∨ ∃ c0 ∈ cycles, c = rollMin c0 := by
+  induction cycles generalizing visited unique with
+  | nil => intro c hc; left; simpa [dedupCycles] using hc
+  | cons cy rest ih =>
+    intro c hc
+    unfold dedupCycles at hc
+    simp only at hc
+    generalize (if directed = true then rollMin cy else sortNat (rollMin cy)) = key at hc
+    by_cases hv : visited.contains key = true
+    · simp only [hv, ↓reduceIte] at hc
+      rcases ih _ _ c hc with h | ⟨c0, h0, h1⟩
+      · left; exact h
+      · right; exact ⟨c0, List.mem_cons_of_mem _ h0, h1⟩
+    · simp only [hv, Bool.false_eq_true, ↓reduceIte] at hc
+      rcases ih _ _ c hc with h | ⟨c0, h0, h1⟩
+      · rcases List.mem_append.mp h with h | h
+        · left; exact h
+        · right; exact ⟨cy, List.mem_cons_self, by simpa using h⟩
+      · right; exact ⟨c0, List.mem_cons_of_mem _ h0, h1⟩
 
 end SkNet.Cycles
